@@ -1,4 +1,5 @@
 import PestModel.Model.LineCol
+import PestModel.Gen.Consts
 /-
 L6/L7 (syntax and optimizer) — `pest_meta::ast::{Expr, Rule, RuleType}`,
 `pest_meta::optimizer::{OptimizedExpr, OptimizedRule, optimize}` and the seven passes
@@ -150,11 +151,18 @@ def populateChoices (rules : List Rule) : Nat → Expr → List Str → Option E
 /-- total size of a rule set (bounds `populate_choices`' recursion on validated grammars). -/
 def rulesSize (rules : List Rule) : Nat := rules.foldl (fun n r => n + r.expr.size + 1) 1
 
+/-- `MAX_SKIP_STRINGS` (regenerated from skipper.rs): `populate_choices` gives up as soon as its list is longer than the
+bound. Its list only grows and every inlined list ends up inside the final one, so giving up on the way is the same as
+refusing a final list that is too long — which is how it is written here. -/
+def skipTooLong : Expr → Bool
+  | .skip l => match PestModel.Gen.Consts.maxSkipStrings with | some c => decide (c < l.length) | none => false
+  | _ => false
+
 def skipF (rules : List Rule) (e : Expr) : Expr :=
   match e with
   | .rep (.seq (.negPred inner) (.ident "ANY")) =>
     match populateChoices rules (rulesSize rules + inner.size + 1) inner [] with
-    | some x => x
+    | some x => if skipTooLong x then e else x
     | none => e
   | _ => e
 
